@@ -404,6 +404,6 @@ def legs_for(check_id, tier):
         legs = CHECKS[check_id]['legs'](tier)
         only = os.environ.get('DSIM_ONLY_LEG')      # development aid (never used by registered commands): legs whose name contains the text
         if only:
-            legs = [l for l in legs if only in l['name']]
+            legs = [l for l in legs if any(o and o in l['name'] for o in only.split(','))]
         _cache[key] = legs
     return _cache[key]
